@@ -409,38 +409,65 @@ impl OpCode {
 }
 
 /// Computes the weight of a bunch of opcodes.
+///
+/// The weight of a slice is the sum of the weights of its opcodes, where `Loop(iters, body_len)` weighs
+/// `weight(body) * iters + 1`; its body is the following `body_len` opcodes, cut off at the end of the slice being
+/// weighed, and the body is weighed once more as part of what follows the loop instruction. This is computed
+/// iteratively, from the end of the program backwards, once per distinct end of a loop body. (A recursive walk doubled
+/// its work with every level of nesting and, even when it remembered the bodies it had weighed, recursed as deep as
+/// the nesting: a 100 kB covenant of nested loops exhausted the stack of the validating thread.)
 pub fn opcodes_weight(opcodes: &[OpCode]) -> u128 {
-    opcodes_weight_memo(opcodes, &mut std::collections::HashMap::new())
+    let n = opcodes.len();
+    // where the body of the loop at position i ends when nothing cuts it off
+    let own_end = |i: usize, body_len: u16| (i + 1 + body_len as usize).min(n);
+    let mut ends: Vec<usize> = opcodes
+        .iter()
+        .enumerate()
+        .filter_map(|(i, op)| match op {
+            OpCode::Loop(_, body_len) => Some(own_end(i, *body_len)),
+            _ => None,
+        })
+        .collect();
+    ends.push(n);
+    ends.sort_unstable();
+    ends.dedup();
+    // body_weight[i]: weight of the uncut body of the loop at i, known once the pass for its own end has run
+    let mut body_weight = vec![0u128; n];
+    // suffix[a]: weight of opcodes[a..end] weighed as a slice ending at `end`, for the end of the current pass
+    let mut suffix = vec![0u128; n + 1];
+    for &end in ends.iter() {
+        suffix[end] = 0;
+        for a in (0..end).rev() {
+            #[cfg(melstf_verif)]
+            VERIF_WEIGH_WORK.fetch_add(1, std::sync::atomic::Ordering::Relaxed);
+            let car = match &opcodes[a] {
+                OpCode::Loop(iters, body_len) => {
+                    let own = own_end(a, *body_len);
+                    // a body reaching up to or beyond `end` is cut off there; a shorter one was weighed in an earlier pass
+                    let body = if own < end {
+                        body_weight[a]
+                    } else {
+                        suffix[a + 1]
+                    };
+                    if own == end {
+                        body_weight[a] = suffix[a + 1];
+                    }
+                    body.saturating_mul(*iters as u128).saturating_add(1)
+                }
+                other => opcodes_car_weight(std::slice::from_ref(other)).0,
+            };
+            suffix[a] = car.saturating_add(suffix[a + 1]);
+        }
+    }
+    suffix[0]
 }
 
-/// Weights of the loop bodies already weighed, keyed by (address of the first opcode, length).
-/// A loop body is weighed once for the loop and once more as part of what follows the loop instruction,
-/// so without remembering it the work doubles with every level of nesting.
-type WeightMemo = std::collections::HashMap<(usize, usize), u128>;
-
-fn opcodes_weight_memo(opcodes: &[OpCode], memo: &mut WeightMemo) -> u128 {
-    let key = (opcodes.as_ptr() as usize, opcodes.len());
-    if let Some(known) = memo.get(&key) {
-        return *known;
-    }
-    let (mut sum, mut rest) = opcodes_car_weight(opcodes, memo);
-    while !rest.is_empty() {
-        let (delta_sum, new_rest) = opcodes_car_weight(rest, memo);
-        rest = new_rest;
-        sum = sum.saturating_add(delta_sum);
-    }
-    memo.insert(key, sum);
-    sum
-}
-
-/// Counts calls of `opcodes_car_weight`, for external verification harnesses. Only compiled with `--cfg melstf_verif`.
+/// Counts steps of the weight computation, for external verification harnesses. Only compiled with `--cfg melstf_verif`.
 #[cfg(melstf_verif)]
 pub static VERIF_WEIGH_WORK: std::sync::atomic::AtomicU64 = std::sync::atomic::AtomicU64::new(0);
 
 /// Compute the weight of the first bit of opcodes, returning a weight and what remains.
-fn opcodes_car_weight<'a>(opcodes: &'a [OpCode], memo: &mut WeightMemo) -> (u128, &'a [OpCode]) {
-    #[cfg(melstf_verif)]
-    VERIF_WEIGH_WORK.fetch_add(1, std::sync::atomic::Ordering::Relaxed);
+fn opcodes_car_weight(opcodes: &[OpCode]) -> (u128, &[OpCode]) {
     if opcodes.is_empty() {
         return (0, opcodes);
     }
@@ -451,7 +478,7 @@ fn opcodes_car_weight<'a>(opcodes: &'a [OpCode], memo: &mut WeightMemo) -> (u128
         OpCode::Noop => (1, rest),
         // handle loops specially
         OpCode::Loop(iters, body_len) => {
-            let sum = opcodes_weight_memo(&rest[..(*body_len as usize).min(rest.len())], memo);
+            let sum = opcodes_weight(&rest[..(*body_len as usize).min(rest.len())]);
 
             (sum.saturating_mul(*iters as u128).saturating_add(1), rest)
         }
